@@ -35,4 +35,36 @@ PROPS = {
         'level_note': 'Vec::retain std contract assumed; the async channel/termination logic (count == total_count) and the three writers\' formatting (text/JSON/SARIF) are not covered: the writers are abstracted to a ghost log; counters are usize (no overflow below 2^64 diagnostics)',
         'not_covered': ['channel receive loop / completion count (async)', 'JSON, SARIF and text writers: that each logged diagnostic is rendered once under its file', 'main-workspace file selection (get_main_workspace_file_ids)'],
     },
+    'C38': {
+        'units': [],
+        'engines': [{'kind': 'rustc-traits', 'negative_control': True}],
+        'level': 'proof',
+        'level_text': 'Static sentence only: on a mechanical copy of the workspace from which every `unsafe impl Send/Sync` of emmylua_code_analysis and emmylua_parser has been stripped (except the query-time view SemanticModel), rustc\'s trait solver proves T: Send + Sync for every field type of EmmyLuaAnalysis (list read from the struct on each run), for DbIndex and for EmmyLuaAnalysis itself — so every component is thread-safe by auto-trait derivation, with no unchecked assertion of this code base consulted.',
+        'level_note': 'type-level proof by rustc; unsafe impls inside dependencies are trusted; the dynamic sentence (concurrent results equal sequential ones, no data race through interior mutability that is Sync by construction) is NOT decided',
+        'technique': 'contract = auto-trait obligations discharged by the rustc trait solver on the real crate with unsafe impls stripped',
+        'not_covered': ['dynamic race freedom / result equality under concurrency', 'SemanticModel (RefCell cache + unsafe impl): per-query view, not held by the analysis'],
+    },
+    'C09': {
+        'units': [{'unit': 'c09_clear'}],
+        'replays': [{'for': r'LuaMemberIndex::clear', 'driver': 'replay/c09', 'bin': 'replay',
+                     'history': 'analyse a file declaring class members; clear_index(); query get_current_owner for the old member ids'}],
+        'level': 'proof',
+        'level_text': 'reindex = clear_index + update_index(all files) and the analysers that refill the indexes are the same code as in a fresh analysis, so the property reduces to: after DbIndex::clear every fact-holding field equals its value in DbIndex::new(). Verus proves, for every index state, that X::new and X::clear both establish fresh_X for each of the 14 index structs, and that DbIndex::clear establishes the conjunction; fresh_X is generated from the struct definition read from /repo on every run, with every field classified (an unclassified new field makes the check undecided).',
+        'level_note': 'value types opaque; hashbrown->std; config-class fields (patterns, workspaces, id counters, remote schema cache) are not required to be fresh; Vfs and LuaCompilation state outside DbIndex and the analysers themselves are not covered; key model of ModuleNodeId assumed',
+        'not_covered': ['that update_index after clear behaves like a fresh analysis (same analyser code, not proved)', 'Vfs state, file-id allocation', 'JsonSchemaIndex (clear is a no-op by design: remote cache)'],
+    },
+    'C22': {
+        'units': [{'unit': 'c22_lineindex'}],
+        'level': 'proof',
+        'level_text': 'Verus proves, for every text below 4 GiB, every offset and every (line, column): LineIndex::parse establishes the line-start/ASCII-flag representation invariant; get_line_col returns the line containing a char-boundary offset and the number of characters before it on that line; get_offset returns None exactly when the line does not exist and otherwise a char-boundary offset inside that line, exact when the column exists and clamped to the end of the line\'s content otherwise; lemma_round_trip derives offset -> position -> offset identity from these two contracts alone; the LuaDocument wrappers inherit the contracts.',
+        'level_note': 'std contracts assumed: slice::partition_point, str::chars().count(), <str as Index>::index forwarding to SliceIndex; text-size shim; invariant wf(line_index, text) at LuaDocument is a precondition (Vfs builds documents from LineIndex::parse(text): not proved); columns are counted in Unicode scalar values (C23 is separate); content end of a CRLF line is the position of its \\n',
+        'not_covered': ['Vfs pairing of text and LineIndex', 'LineIndex::is_line_only_ascii, LuaDocument::{get_text_slice, get_line_count, get_document_lsp_range, ...}'],
+    },
+    'C10': {
+        'units': [{'unit': 'c10_remove'}],
+        'level': 'proof',
+        'level_text': 'Clause-level: for LuaDeclIndex, LuaDependencyIndex, DiagnosticIndex, LuaFlowIndex, LuaSignatureIndex, LuaPropertyIndex (and the four per-file maps of LuaReferenceIndex) Verus proves for every index state and file id that remove(file_id) deletes exactly the entry keyed by that file (map == old.remove(file_id)), that every signature / property owner registered for the file is gone, and that DbIndex::remove establishes all of these together.',
+        'level_note': 'NOT covered: LuaModuleIndex, LuaMemberIndex, LuaTypeIndex, LuaOperatorIndex, LuaMetatableIndex, LuaGlobalIndex (nested get_mut/retain cascades outside the dialect), the nested sweeps of LuaReferenceIndex, Vfs::remove_file, values that mention the removed file inside other files\' entries (e.g. dependency sets), and every query path; HashSet::into_iter modelled as an arbitrary duplicate-free enumeration; key models assumed',
+        'not_covered': ['module/member/type/operator/metatable/global indexes', 'reference index nested sweeps', 'Vfs::remove_file', 'memory release'],
+    },
 }
